@@ -602,3 +602,124 @@ def _env_of(b):
     env = A.Env()
     A.run(ir.stmts_of(ir.fn_block(b)), env)
     return env
+
+
+
+def vt_types_rules(ck, P, rule="R-VT-TYPES"):
+    """versatiles record helpers that every reader / writer path goes through:
+       order    FileHeader::to_blob writes zoom_range[0], [1] and bbox[0..3] in index order; from_blob fills them in the same order;
+       guards   a decoder reports an error when a length / magic / version DIFFERS from the expected constant — an error exit under
+                `value == constant` (the negated guard) rejects exactly the valid files;
+       records  BlockIndex::from_blob and TileIndex::from_blob visit every record from 0; BlockIndex adds each decoded block;
+       index    TileIndex::set stores its argument at the given position, add_offset shifts every entry by its argument;
+       level    the block-local box of a BlockDefinition lives on level min(z, 8) (a block is 256 = 2^8 tiles wide)."""
+    from . import census
+    fh_w = [b for b in P.bodies if b["q"].endswith("file_header::FileHeader::to_blob")]
+    fh_r = [b for b in P.bodies if b["q"].endswith("file_header::FileHeader::from_blob")]
+    if ck.anchor(rule, "FileHeader::to_blob/from_blob", fh_w + fh_r, 2):
+        b = fh_w[0]
+        seq = {}
+        for y in ir.walk_nodes(b["body"]):
+            if y.get("k") == "index" and ir.place_str(y["e"]).startswith("self.") and ir.const_eval(y["i"], {}) is not None:
+                seq.setdefault(ir.place_str(y["e"]), []).append(ir.const_eval(y["i"], {}))
+        oko = seq.get("self.zoom_range") == [0, 1] and seq.get("self.bbox") == [0, 1, 2, 3]
+        ck.check(oko, rule, b["q"] + "|order", "zoom_range[0], [1] and bbox[0..3] are written in index order", "array elements are written in the order %s" % seq, ir.loc(b))
+        r = fh_r[0]
+        arrs = [y for y in ir.walk_nodes(r["body"]) if y.get("k") == "array" and len(y.get("es", ())) in (2, 4) and all(ir.contains(e_, lambda z: z.get("k") == "mcall" and z.get("name", "").startswith("read_")) for e_ in y["es"])]
+        ck.check(len(arrs) == 2 and sorted(len(a["es"]) for a in arrs) == [2, 4], rule, r["q"] + "|order", "zoom range and bbox are read as array literals of consecutive reads (element order = read order)",
+                 "the reader does not fill zoom range / bbox from consecutive reads (%d array literal(s))" % len(arrs), ir.loc(r))
+    # decode guards
+    DEC = ("file_header::FileHeader::from_blob", "block_index::BlockIndex::from_blob", "tile_index::TileIndex::from_blob", "block_definition::BlockDefinition::from_blob",
+           "header_v3::HeaderV3::deserialize", "entries_v3::EntriesV3::from_blob")
+    decs = [b for b in P.bodies if b["q"].endswith(DEC)]
+    if ck.anchor(rule, "record decoders", decs, 6):
+        bad, n_err = [], 0
+        for b in decs:
+            def is_err_exit(y):
+                if y.get("k") == "ret" and y.get("e") is not None and ir.contains(y["e"], lambda z: z.get("k") == "call" and (z.get("q") or "").endswith(("Err::{Ctor#0}", "anyhow::Error::msg"))):
+                    return True
+                return False
+            for n, parents, _m in ir.walk(ir.fn_block(b)):
+                if not is_err_exit(n):
+                    continue
+                n_err += 1
+                # the innermost condition that decides this exit
+                guard = None
+                for p_ in reversed(parents):
+                    if p_.get("k") == "if":
+                        in_then = ir.contains(p_["then"], lambda z: z is n)
+                        guard = ir.cmp_norm(p_["c"], negate=not in_then)
+                        break
+                if guard is not None and guard[1] == "==":
+                    other = [guard[0], guard[2]]
+                    if any(census._const_of(o) is not None or (isinstance(o, str) and (o.startswith(("'", '"')) or o.isupper())) for o in other):
+                        bad.append("%s: error when `%s`" % (ir.loc(n), " ".join(map(str, guard))))
+        ck.check(not bad and n_err >= 6, rule, "decoders|guards", "no decoder reports an error because a length / magic / version EQUALS its expected value (%d error exits)" % n_err,
+                 "a decoder rejects input that matches the expected value: %s" % bad[:3])
+    # records
+    for suffix, sink in (("block_index::BlockIndex::from_blob", "add_block"), ("tile_index::TileIndex::from_blob", "push")):
+        bs = [b for b in P.bodies if b["q"].endswith(suffix)]
+        if not bs:
+            continue
+        b = bs[0]
+        loops = [n for n in ir.walk_nodes(b["body"]) if n.get("k") == "for"]
+        okl = False
+        if len(loops) == 1:
+            it = ir.unparen(loops[0]["iter"])
+            st = None
+            if it.get("k") == "struct" and "Range" in (it.get("q") or ""):
+                fl = {f["name"]: f["e"] for f in it["fields"]}
+                st = ir.const_eval(fl.get("start"), {}) if "start" in fl else None
+            from . import mvt
+            cnt = mvt.exit_counts(P, {"body": loops[0]["body"]}, lambda y: 1 if (y.get("k") == "mcall" and y.get("name") == sink) else None)
+            esc = [y["k"] for y in ir.walk_nodes(loops[0]["body"]) if y.get("k") in ("break", "continue")]
+            okl = st == 0 and cnt == {1} and not esc
+        ck.check(okl, rule, b["q"] + "|records", "every record from 0 on is decoded and kept (%s once per record)" % sink, "not every record is decoded and kept", ir.loc(b))
+    bd = [b for b in P.bodies if b["q"].endswith("block_definition::BlockDefinition::from_blob")]
+    if bd:
+        brs = [y for y in ir.walk_nodes(bd[0]["body"]) if y.get("k") == "call" and (y.get("q") or "").endswith("ByteRange::new") and len(y.get("a", ())) == 2]
+        badr = []
+        for y in brs:
+            n0, n1 = ir.place_str(y["a"][0]), ir.place_str(y["a"][1])
+            if not ("offset" in _tokens(n0) and "length" in _tokens(n1)):
+                badr.append("ByteRange::new(%s, %s)" % (n0, n1))
+        ck.check(len(brs) == 2 and not badr, rule, bd[0]["q"] + "|ranges", "the two ranges of a block record are built as (offset value, length value)", "a range of the block record is built from %s" % badr, ir.loc(bd[0]))
+    bi = [b for b in P.bodies if b["q"].endswith("block_index::BlockIndex::from_blob")]
+    if bi:
+        from . import affine as A
+        brs = [y for y in ir.walk_nodes(bi[0]["body"]) if y.get("k") == "call" and (y.get("q") or "").endswith("ByteRange::new") and len(y.get("a", ())) == 2]
+        okb = False
+        shown = "?"
+        loops = [n for n in ir.walk_nodes(bi[0]["body"]) if n.get("k") == "for"]
+        if len(brs) == 1 and len(loops) == 1:
+            iv = ir.pat_binds(loops[0]["pat"])
+            env = A.Env()
+            off, ln = A.ev(brs[0]["a"][0], env), A.ev(brs[0]["a"][1], env)
+            shown = "(%s, %s)" % (A.show(off), A.show(ln))
+            okb = len(iv) == 1 and A.as_const(ln) is not None and A.eq(off, A.mul(A.local_sym(iv[0]), ln))
+        ck.check(okb, rule, bi[0]["q"] + "|record-range", "record i of the block index is read from (i * record length, record length)", "block index records are read from %s" % shown, ir.loc(bi[0]))
+    ts = [b for b in P.bodies if b["q"].endswith("tile_index::TileIndex::set")]
+    ta = [b for b in P.bodies if b["q"].endswith("tile_index::TileIndex::add_offset")]
+    if ck.anchor(rule, "TileIndex::set/add_offset", ts + ta, 2):
+        b = ts[0]
+        ps = [x for p_ in b["params"] for x in ir.pat_binds(p_) if x["name"] != "self"]
+        asg = [y for y in ir.walk_nodes(b["body"]) if y.get("k") == "assign" and ir.strip(y["l"]).get("k") == "index"]
+        oks = len(ps) == 2 and len(asg) == 1 and ir.local_hid(ir.strip(asg[0]["l"])["i"]) == ps[0]["hid"] and ir.local_hid(asg[0]["r"]) == ps[1]["hid"] and ir.place_str(ir.strip(asg[0]["l"])["e"]).startswith("self.")
+        ck.check(oks, rule, b["q"], "set(index, range) stores the range at that position", "TileIndex::set does not store its argument at the given position", ir.loc(b))
+        b = ta[0]
+        ps = [x for p_ in b["params"] for x in ir.pat_binds(p_) if x["name"] != "self"]
+        it = [y for y in ir.walk_nodes(b["body"]) if y.get("k") == "mcall" and y.get("name") == "iter_mut" and ir.place_str(y["recv"]).startswith("self.")]
+        adds = [y for y in ir.walk_nodes(b["body"]) if (y.get("k") == "mcall" and y.get("name") in ("saturating_add", "checked_add", "wrapping_add") or y.get("k") == "assignop" and y.get("op", "").startswith("+"))
+                and ir.contains(y, lambda z: z.get("k") == "path" and z.get("r") == "local" and ps and z.get("hid") == ps[0]["hid"]) and ir.contains(y, lambda z: z.get("k") == "field" and z.get("name") == "offset")]
+        adapt = [y["name"] for y in ir.walk_nodes(b["body"]) if y.get("k") == "mcall" and y.get("name") in ("skip", "take", "filter", "step_by", "skip_while", "take_while")]
+        ck.check(len(it) == 1 and len(adds) >= 1 and not adapt, rule, b["q"], "add_offset adds its argument to the offset of every entry", "add_offset does not shift every entry by its argument", ir.loc(b))
+    for suffix in ("block_definition::BlockDefinition::new", "block_definition::BlockDefinition::from_blob"):
+        bs = [b for b in P.bodies if b["q"].endswith(suffix)]
+        if not bs:
+            continue
+        nb = [y for y in ir.walk_nodes(bs[0]["body"]) if y.get("k") == "call" and (y.get("q") or "").endswith("TileBBox::new") and len(y.get("a", ())) == 5]
+        okz = False
+        if nb:
+            a0 = ir.strip(nb[0]["a"][0])
+            okz = a0.get("k") == "mcall" and a0.get("name") == "min" and ir.const_eval(a0["a"][0], {}) == 8
+        ck.check(okz, rule, bs[0]["q"] + "|level", "the block-local box is built on level min(z, 8)", "the block-local box is not built on level min(z, 8): local coordinates up to 255 are rejected or unbounded", ir.loc(bs[0]))
